@@ -6,7 +6,7 @@ WT="/tmp/tryall-$$"
 cd /verif || exit 2
 git -C /repo worktree add -q "$WT" HEAD || exit 2
 mkdir -p /tmp/tryall-ev-$$; cp evidence/*.json /tmp/tryall-ev-$$/
-trap 'cp /tmp/tryall-ev-'$$'/*.json /verif/evidence/; rm -rf /tmp/tryall-ev-'$$'; git -C /repo worktree remove --force "$WT" >/dev/null 2>&1; cd /verif && for p in $(cat tools/claimed.txt); do l=$(echo $p | tr A-Z a-z); PYTHONPATH=/repo/src:/verif /venv/bin/python -c "from tools import $l as m; m.gen()" >/dev/null 2>&1; done' EXIT
+trap 'cp /tmp/tryall-ev-'$$'/*.json /verif/evidence/; rm -rf /tmp/tryall-ev-'$$'; git -C /repo worktree remove --force "$WT" >/dev/null 2>&1; cd /verif && for p in $(cat tools/claimed.txt); do l=$(echo $p | tr A-Z a-z); PYTHONPATH=/repo/src:/verif /venv/bin/python -c "from tools import $l as m, c03; (m.gen if hasattr(m, \"gen\") else (lambda: c03.write_gen(\"C03\")))()" >/dev/null 2>&1; done' EXIT
 if [ -n "$DEMO" ]; then PYTHONPATH="$WT/src" /venv/bin/python "$DEMO" >/dev/null 2>&1; echo "demo on clean tree: exit $?"; fi
 git -C "$WT" apply "$DIFF" || { echo "patch does not apply"; exit 2; }
 if [ -n "$DEMO" ]; then PYTHONPATH="$WT/src" /venv/bin/python "$DEMO" >/dev/null 2>&1; echo "demo on mutant: exit $?"; fi
